@@ -187,6 +187,22 @@ def _work(ctx: Ctx, item):
                 ctx.report("C17|process-dependent", f"hash {h} in this process, {g} in a fresh process (PYTHONHASHSEED=12345)", {"pgn": pgn, "payload_hex": hx, "probe": True})
 
 
+def _clients(ctx: Ctx, item=None):
+    """Network mapping switched on through each gateway client: delivered messages carry the hash a bare decoder computes."""
+    from .. import clientopts as co
+    msgs = co.standard_traffic(co.KEYED + co.FAST[:1] + co.KEYED[:2])
+    co.run(ctx, "C17", [("build_network_map=True", lambda: {"build_network_map": True}),
+                         ("build_network_map=False", lambda: {"build_network_map": False})], msgs, reconnects=((), (5,)))
+    from .. import aio
+    for kind in aio.CLIENT_KINDS:
+        got, s = aio.client_passthrough(kind, aio.render_messages(kind, msgs), {"build_network_map": True})
+        ctx.count()
+        data = [m for m in got if m.PGN != 60928]
+        if not data or any(m.hash is None for m in got):
+            ctx.report(f"C17|client-{kind}|hash-missing", f"{kind} client built with build_network_map=True delivered {len(got)} messages, "
+                       f"{sum(1 for m in got if m.hash is None)} without a hash", {"clientopts": True, "kind": kind, "options": "build_network_map=True"})
+
+
 def _siblings(ctx: Ctx, item):
     """All definitions of a multi-definition PGN decoded back to back on the same decoders from the same source (both orders):
     the hash of a message must not depend on what the decoder saw before."""
@@ -215,6 +231,7 @@ def _siblings(ctx: Ctx, item):
 
 
 def run(ctx: Ctx):
+    pmap(ctx, _clients, [None])
     db = canboat.db()
     multi = [pgn for pgn, ds in db.by_pgn.items() if len(ds) > 1]
     pmap(ctx, _siblings, [([p],) for p in multi])
@@ -229,6 +246,9 @@ def run(ctx: Ctx):
 
 
 def replay(ctx: Ctx, case):
+    if case.get("clientopts"):
+        from .. import clientopts as co
+        return co.replay("C17", _clients, case)
     db = canboat.db()
     R = Runner(ctx)
     if case.get("probe"):
